@@ -298,11 +298,9 @@ impl Message {
 
                                     info_hash: announce_peer_args.info_hash.into(),
                                     port: announce_peer_args.port,
-                                    implied_port: if announce_peer_args.implied_port.is_some() {
-                                        Some(1)
-                                    } else {
-                                        Some(0)
-                                    },
+                                    implied_port: announce_peer_args
+                                        .implied_port
+                                        .map(|implied_port| implied_port as u8),
                                 },
                             }
                         }
